@@ -794,7 +794,7 @@ pub fn run(ctx: &Ctx) -> i32 {
     });
     let ev = Evidence {
         level: "exploration",
-        rule: "One sim = one engine process: ucinewgame, then 1-3 position commands whose move lists are seeded legal games with planted repetitions (shuffle cycles a-out b-out a-back b-back of 1..11 plies, also with rooks/kings that lose castling rights so that look-alike placements are not repetitions), then go depth 1; variants with several position commands in a row and a position without moves after one with. After each position command every legal successor S of the final position is queried through the hook that brackets the query like a search does: verdict must equal (S occurred at least twice before in the history of that command). The first go depth 1 of a game is compared with the reference max over successors of (0 if S occurred twice before else minus the engine's own quiescence value of S), and the bestmove must attain it. Successors on which 'ep square as recorded' and 'ep square only if capturable' disagree are skipped and counted. Evaluations = successors queried; distinct by (successor position, occurrence bucket). One session in three sends uci first and puts one or two commands a GUI may send at any time (isready, setoption - an option the engine advertised, or a standard one such as Clear Hash / Hash -, stop, ponderhit) behind a position command with a history; the verdicts are asked again after each.".into(),
+        rule: "One sim = one engine process: ucinewgame, then 1-3 position commands whose move lists are seeded legal games with planted repetitions (shuffle cycles a-out b-out a-back b-back of 1..11 plies, also with rooks/kings that lose castling rights so that look-alike placements are not repetitions), then go depth 1; variants with several position commands in a row and a position without moves after one with. After each position command every legal successor S of the final position is queried through the hook that brackets the query like a search does: verdict must equal (S occurred at least twice before in the history of that command). The first go depth 1 of a game is compared with the reference max over successors of (0 if S occurred twice before else minus the engine's own quiescence value of S), and the bestmove must attain it. Successors on which 'ep square as recorded' and 'ep square only if capturable' disagree are skipped and counted. Evaluations = successors queried; distinct by (successor position, occurrence bucket). One session in three sends uci first and puts one or two commands a GUI may send at any time (isready, setoption - an option the engine advertised, or a standard one such as Clear Hash / Hash -, stop, ponderhit) behind a position command with a history; the verdicts are asked again after each. One session in forty repeats one shuffle cycle 254-259 times; one in ten is position P, go, ucinewgame, position P moves ... with P about to occur again.".into(),
         extra: serde_json::Map::new(),
         assumptions: vec![
             "occurrences are counted by the independent rules model over the positions after every prefix of the move list, start position included".into(),
